@@ -1358,6 +1358,12 @@ def _len(eng, st, args, kw, node):
                 S = z3.Const(fresh_name("S!card"), asort)
                 eng.axioms.append(z3.ForAll([S], z3.And(cardf(S) >= 0, (cardf(S) == 0) == (S == z3.K(c.tk.z3sort(), z3.BoolVal(False)))),
                                             patterns=[cardf(S)]))
+                # finite sets: a subset with at least as many elements is the whole set
+                A_, B_ = z3.Const(fresh_name("A!card"), asort), z3.Const(fresh_name("B!card"), asort)
+                x_ = z3.Const(fresh_name("x!card"), c.tk.z3sort())
+                eng.axioms.append(z3.ForAll([A_, B_], z3.Or(z3.Exists([x_], z3.And(z3.Select(A_, x_), z3.Not(z3.Select(B_, x_)))),
+                                                              cardf(A_) < cardf(B_), A_ == B_),
+                                            patterns=[z3.MultiPattern(cardf(A_), cardf(B_))]))
             card = cardf(c.has)
             s.assume(card >= 0)
             yield s, SInt(card)
